@@ -507,9 +507,13 @@ def fn_block(body):
         if n.get("k") == "let" and n.get("pat", {}).get("name") == "__ret" and "init" in n and n["init"].get("k") == "block":
             return n["init"]
     # plain async fn: body is a closure (coroutine) wrapping the block
-    if b.get("k") == "block" and not b.get("stmts") and b.get("tail", {}).get("k") == "closure":
-        inner = b["tail"]["body"]
-        # async fn desugaring: block { let params..; tail: user block } — take innermost meaningful block
+    clo = b if b.get("k") == "closure" else (b.get("tail") if b.get("k") == "block" and not b.get("stmts") and b.get("tail", {}).get("k") == "closure" else None)
+    if clo is not None and "Coroutine" in clo.get("ck", ""):
+        inner = clo["body"]
+        # async fn desugaring: block { let param = param; ..; tail: USER BLOCK }
+        if inner.get("k") == "block" and inner.get("tail", {}).get("k") == "block" and \
+                all(st.get("k") == "let" and "Async" in st.get("m", "") for st in inner.get("stmts", ())):
+            return inner["tail"]
         return inner
     return b
 
